@@ -135,8 +135,13 @@ class InitMethod(MethodDescriptor):
                     _inplace=True,
                 )
 
-            if instance_metadata.post_init:
-                instance_metadata.post_init(self)
+            # Resolve the hook on the class of the instance: a subclass that is
+            # not itself a spec-class shares this metadata but may override it.
+            post_init = getattr(
+                self.__class__, "__post_init__", instance_metadata.post_init
+            )
+            if post_init:
+                post_init(self)
 
             self.__delattr__(
                 "__spec_class_initializing__", force=True, skip_invalidation=True
